@@ -1045,6 +1045,11 @@ func s1GenFinish(ses *s1Session, line *s1Gen, t0 time.Time) *s1Gen {
 		return line
 	}
 	line.NextGen = true
+	// the counter is bumped by the reconnect loop after Start returns, i.e. possibly a moment after State() says Selected
+	for k := 0; k < 60 && int(cut.Conn.Metrics().Reconnects())-line.reconn0 < 1; k++ {
+		time.Sleep(5 * time.Millisecond)
+	}
+	time.Sleep(20 * time.Millisecond)
 	line.Reconnects = int(cut.Conn.Metrics().Reconnects()) - line.reconn0
 	end := time.Now().Add(500 * time.Millisecond)
 	for time.Now().Before(end) {
